@@ -210,7 +210,9 @@ pub fn matrix() -> Vec<(String, Prog)> {
                         if has_fun {
                             continue;
                         }
-                        let mut b = vec![let_("loc", E::Int(3))];
+                        // `loc` is the second local of the entry frame: an index that does not
+                        // exist in a small method frame
+                        let mut b = vec![let_("pad", E::Int(0)), let_("loc", E::Int(3))];
                         b.extend(stmts);
                         prog.push(E::Block(b));
                     }
@@ -264,6 +266,16 @@ impl Property for C02 {
             ctx.label("matrix-program");
             if let Err(mut v) = judge_source(&prog, ctx, &name) {
                 v.detail = format!("[matrix {}] {}", name, v.detail);
+                out.push(v);
+            }
+        }
+        for (i, (name, prog)) in crate::gen::scale::programs().into_iter().enumerate() {
+            if !ctx.shard_mine(i + 3) {
+                continue;
+            }
+            ctx.label("scale-program");
+            if let Err(mut v) = judge_source(&prog, ctx, name) {
+                v.detail = format!("[scale program {}] {}", name, v.detail);
                 out.push(v);
             }
         }
